@@ -21,7 +21,7 @@ FUNCS = ['coba.evaluators.sequential:SequentialCB.evaluate','coba.evaluators.seq
 
 CobaContext.logger = NullLogger()
 
-RECORDS = [['reward','action','probability'], ['reward','time','probability','action','context','actions','rewards'], ['time'], ['context','actions','rewards'], [], ['reward','probability'], ['action'], ['action','probability']]
+RECORDS = [['reward','action','probability'], ['reward','time','probability','action','context','actions','rewards'], ['time'], ['context','actions','rewards'], [], ['reward','probability'], ['action'], ['action','probability'], ['reward']]
 
 class Env:
     def __init__(self, interactions): self._i = interactions
@@ -34,7 +34,7 @@ class Recorder:
     def predict(self, context, actions):
         i = self.n; self.n += 1
         idx = self.sym.choice(f'pick{i}', range(len(actions)))
-        p = None if self.bare else self.sym.real(f'p{i}', 0.25, 1, denom=4)
+        p = None if self.bare else self.sym.real(f'p{i}', 0, 1, denom=4)        # 0 included: a learner may report probability 0
         self.trace.append(('predict', i, context, list(actions), idx, p))
         if self.bare: return actions[idx]                     # a bare action, no probability
         if self.with_kw: return actions[idx], p, {'kw': 100+i}
